@@ -74,6 +74,12 @@ def sbml_text(spec):
           'initialAmount="%r" hasOnlySubstanceUnits="false" '
           'boundaryCondition="false" constant="false"/>'
           % (c['name'], c['name'], c['name'], float(c['init'])))
+    for (c, v, init) in spec.get('metab', []):
+        # a second species (a metabolite) in the same compartment
+        a('      <species id="m_%s" name="m_%s" compartment="%s" '
+          'initialAmount="%r" hasOnlySubstanceUnits="false" '
+          'boundaryCondition="false" constant="false"/>'
+          % (c, c, c, float(init)))
     a('    </listOfSpecies>')
     a('    <listOfParameters>')
     for (f, t, v) in spec.get('transfers', []):
@@ -81,6 +87,9 @@ def sbml_text(spec):
           % (f, t, float(v)))
     for (c, v) in spec.get('elims', []):
         a('      <parameter id="ke_%s" value="%r" constant="true"/>'
+          % (c, float(v)))
+    for (c, v, init) in spec.get('metab', []):
+        a('      <parameter id="kmet_%s" value="%r" constant="true"/>'
           % (c, float(v)))
     for (c, vmax, km) in spec.get('mm', []):
         a('      <parameter id="vmax_%s" value="%r" constant="true"/>'
@@ -105,6 +114,16 @@ def sbml_text(spec):
         a('        <listOfReactants><speciesReference species="d_%s" '
           'constant="true"/></listOfReactants>' % c)
         a('        <kineticLaw><math %s><apply><times/><ci>ke_%s</ci>'
+          '<ci>%s</ci><ci>d_%s</ci></apply></math></kineticLaw>'
+          % (mathml, c, c, c))
+        a('      </reaction>')
+    for (c, v, init) in spec.get('metab', []):
+        a('      <reaction id="rmet_%s" reversible="false">' % c)
+        a('        <listOfReactants><speciesReference species="d_%s" '
+          'constant="true"/></listOfReactants>' % c)
+        a('        <listOfProducts><speciesReference species="m_%s" '
+          'constant="true"/></listOfProducts>' % c)
+        a('        <kineticLaw><math %s><apply><times/><ci>kmet_%s</ci>'
           '<ci>%s</ci><ci>d_%s</ci></apply></math></kineticLaw>'
           % (mathml, c, c, c))
         a('      </reaction>')
@@ -163,6 +182,11 @@ def gen_sbml_spec(rng, n_comps=None, nonlinear=False):
     if nonlinear:
         spec['mm'] = [[names[0], round(rng.uniform(0.2, 1.0), 2),
                        round(rng.uniform(0.5, 2.0), 2)]]
+    if rng.random() < 0.25:
+        # parent drug and metabolite share a compartment: two state
+        # variables an administration can be directed at
+        spec['metab'] = [[rng.choice(names), round(rng.uniform(0.1, 0.8), 2),
+                          round(rng.uniform(0.0, 1.0), 2)]]
     return spec
 
 
